@@ -37,8 +37,28 @@ def jsonify_summary(ev, args, kwargs, node):
     return NotImplemented
 
 
+ACCEPTED_BY_LIBRARY = ('dec', 'deca', 'hpa', 'dms', 'ddm', 'gona')    # notations angular_typecheck turns into decimal degrees
+
+
+def input_converter(repo):
+    """name of the function the 'dms' entry of the input table refers to when it is a typed HP -> <notation the library accepts> conversion
+    of geodepy.angles (hp2dec, hp2deca, hp2dms, ...: all denote the same angle and vincinv/vincdir accept any of them); else 'hp2dec'"""
+    from .c08 import Typer
+    m = repo.module('api.app')
+    ev = Evaluator(repo)
+    v = ev.global_value(m, 'angle_type_to_dd')
+    if isinstance(v, DictV) and 'dms' in v.d and isinstance(v.d['dms'], Ref):
+        tgt = v.d['dms'].target
+        name = getattr(tgt, 'qualname', '')
+        if getattr(getattr(tgt, 'module', None), 'name', '') == 'geodepy.angles':
+            sg = Typer(repo).sig(name)
+            if sg and sg[0] == 'hp' and sg[1] in ACCEPTED_BY_LIBRARY:
+                return name
+    return 'hp2dec'
+
+
 def mk_eval(repo):
-    ev = Evaluator(repo, opaque=LIB, summaries={'hp2dec': lambda *a: NotImplemented})
+    ev = Evaluator(repo, opaque=LIB | {input_converter(repo)}, summaries={'hp2dec': lambda *a: NotImplemented})
     ev.queries = []
     ev.ext_summaries['flask.request.args.get'] = query_summary
     ev.ext_summaries['flask.jsonify'] = jsonify_summary
@@ -127,7 +147,7 @@ def handler_rules(repo, rep):
         fa, ta = Rat.sym('q:from_angle_type'), Rat.sym('q:to_angle_type')
         actuals = {}
         for p in angle_params:
-            actuals[p] = conv(fa, 'dd', 'hp2dec', repo, Rat.sym('q:' + p))
+            actuals[p] = conv(fa, 'dd', input_converter(repo), repo, Rat.sym('q:' + p))
         for p in plain_params:
             actuals[p] = Rat.sym('q:' + p)
         call = libcall(repo, 'geodepy.geodesy', lib, ev, **actuals)
@@ -193,7 +213,7 @@ def pick(x, cond, branch):
 def table_rules(repo, rep):
     m = repo.module('api.app')
     ev = mk_eval(repo)
-    for tname, fn in (('angle_type_to_dd', 'hp2dec'), ('dd_to_angle_type', 'dec2hp')):
+    for tname, fn in (('angle_type_to_dd', input_converter(repo)), ('dd_to_angle_type', 'dec2hp')):
         v = ev.global_value(m, tname)
         key = 'R-DISPATCH::api/app.py::%s' % tname
         w = 'api/app.py:1'
@@ -214,7 +234,7 @@ def table_rules(repo, rep):
         t = v.d['dms']
         tgt = t.target if isinstance(t, Ref) else None
         if tgt is not None and getattr(tgt, 'qualname', '') == fn and tgt.module.name == 'geodepy.angles':
-            rep.holds('R-DISPATCH', k, w, 'dms entry is geodepy.angles.%s (re-exported through geodepy.convert)' % fn)
+            rep.holds('R-DISPATCH', k, w, 'dms entry is geodepy.angles.%s (re-exported through geodepy.convert)%s' % (fn, '' if fn in ('hp2dec', 'dec2hp') else ': an HP -> angle conversion the geodesic routines accept through angular_typecheck'))
         else:
             rep.violated('R-DISPATCH', k, w, 'dms entry is not %s' % fn, expected=fn, actual=show(t, 2, 80))
     # index route and registration
